@@ -10,9 +10,9 @@ import ast
 import re
 from fractions import Fraction
 
-from ..cfg import CFG, DataFlow, forward_states
+from ..cfg import DataFlow, forward_states
 from ..model import AnalysisError, call_name, dotted, last_attr, module_constants, norm_text, walk_no_nested
-from ..rules.symx import PARAMS_MARK, SymExec, cond_matches
+from ..rules.symx import SymExec, cond_matches
 from ..terms import PI, Normalizer, Poly
 
 MOD = "abtem.transfer"
